@@ -1,5 +1,8 @@
 import TypVerif.Drv.Proto
 import TypVerif.Drv.C13
+import TypVerif.Drv.C08
+import TypVerif.Drv.C11
+import TypVerif.Drv.C20
 import TypVerif.Drv.C06
 import TypVerif.Drv.C16
 import TypVerif.Drv.C01
@@ -20,6 +23,9 @@ open TypVerif.Proto
 
 def judges : List (String × Judge) := [
   ("C13", TypVerif.Drv.C13.judge),
+  ("C08", TypVerif.Drv.C08.judge),
+  ("C11", TypVerif.Drv.C11.judge),
+  ("C20", TypVerif.Drv.C20.judge),
   ("C06", TypVerif.Drv.C06.judge),
   ("C16", TypVerif.Drv.C16.judge),
   ("C01", TypVerif.Drv.C01.judge),
